@@ -57,6 +57,11 @@ CHECKS['C19'] = ('model_checking', '§5 C19',
     'Facets the book leaves open are not compared (grouping with non-decimal modes, # without mode, X digit case, shape of scientific notation, rank base of nth_smallest). The accounted level read through the hook is the witness for element loss/duplication.',
     'bounded-exhaustive law checking over complete universes + fault-point enumeration (failure at every comparison)')
 
+CHECKS['C06'] = ('fault_enumeration', '§5 C06',
+    'Part A: an error value with a distinct message is injected at every argument position (singly; pairs for arity<=2 and in the thorough tier) of every static library overload (generics bound to int), of user functions, generic user functions, functions with defaults, lambdas, function values and partials (a display in the body makes "the body did not run" observable), and of every construction and collection insertion; the result must be the leftmost error, collections dumped by the hook must never contain an error node; the documented handlers and short-circuit functions follow a per-position table written from the book. Part B: 43 catcher contexts (if_error/is_error/get_error, nesting, optional/bool combinators, every lazy adaptor and callback position, default parameters, f-strings) x 7 violation sources (depth, calls, recursion, two search paths, permission, allocation) x every limit value at which the source trips: the host must receive exactly that violation.',
+    'Whether arguments right of an erroring argument are evaluated is unspecified; set_default skipping its value for a present key is pinned by the shipped suite and not demanded; pool values that do not type are skipped.',
+    'fault injection at every argument position + limit sweep through every catcher context')
+
 NA = {
 }
 
